@@ -58,12 +58,12 @@ ASSUMPTIONS = [
     "results that are UFL scalar constants (IntValue/FloatValue/Zero returned by PermutationSymbol.evaluate) count as their numeric value",
 ]
 BUDGET = {"quick": 45, "thorough": 400}
-NCASES = {"quick": 2400, "thorough": 40000}
+NCASES = {"quick": 16000, "thorough": 240000}
 CASE_TIMEOUT = 30.0
 EVAL_COUNTER = "values_agree"
 FLOORS = {
-    "quick": {"held": 300, "values_agree": 4000, "held_with_derivative": 40, "held_open": 30, "held_tensor": 80},
-    "thorough": {"held": 5000, "values_agree": 70000, "held_with_derivative": 700, "held_open": 500, "held_tensor": 1400},
+    "quick": {"held": 5000, "values_agree": 55000, "held_with_derivative": 700, "held_open": 1000, "held_tensor": 1800, "held_complex": 1400},
+    "thorough": {"held": 78000, "values_agree": 800000, "held_with_derivative": 10000, "held_open": 15000, "held_tensor": 27000, "held_complex": 21000},
 }
 _CORE_OPS = [
     "add", "sub", "mul", "div", "pow", "neg", "abs", "getitem", "stack", "as_tensor_idx", "conditional", "cmp:lt", "cmp:gt", "cmp:le", "cmp:ge",
@@ -73,7 +73,16 @@ _CORE_OPS = [
     "identity", "zero", "lit", "coef", "x", "conj", "real", "imag",
 ]
 _BESSEL = ["bessel:J", "bessel:Y", "bessel:I", "bessel:K"] if HAVE_SCIPY else []
-COVER_FLOORS = {"quick": {"ops_held": _CORE_OPS + _BESSEL}, "thorough": {"ops_held": _CORE_OPS + _BESSEL + ["eps"]}}
+_CLASSES = [
+    "Abs", "Acos", "AndCondition", "Argument", "Asin", "Atan", "Atan2", "Coefficient", "ComplexValue", "ComponentTensor", "Conditional", "Conj", "Constant", "Cos", "Cosh",
+    "Division", "EQ", "Erf", "Exp", "FloatValue", "GE", "GT", "Grad", "Identity", "Imag", "IndexSum", "Indexed", "IntValue", "LE", "LT", "ListTensor", "Ln", "MaxValue", "MinValue",
+    "MultiIndex", "NE", "NegativeRestricted", "NotCondition", "OrCondition", "PermutationSymbol", "PositiveRestricted", "Power", "Product", "Real", "Sin", "Sinh", "SpatialCoordinate",
+    "Sqrt", "Sum", "Tan", "Tanh", "Variable", "Zero",
+] + (["BesselI", "BesselJ", "BesselK", "BesselY"] if HAVE_SCIPY else [])
+COVER_FLOORS = {
+    "quick": {"ops_held": _CORE_OPS + _BESSEL + ["eps"], "evaluated_classes_held": _CLASSES, "mapping_styles_held": ["call1", "call2", "call2_list", "call2_np", "value", "value_list", "value_np"]},
+    "thorough": {"ops_held": _CORE_OPS + _BESSEL + ["eps"], "evaluated_classes_held": _CLASSES, "mapping_styles_held": ["call1", "call2", "call2_list", "call2_np", "value", "value_list", "value_np"]},
+}
 DERIV_OPS = {"grad", "Div", "curl", "nabla_grad", "nabla_div", "dx", "dxi"}
 COORDS = [k / 8 for k in range(-10, 11) if k]
 
@@ -285,7 +294,12 @@ def observe(ctx, recipe, expr, pool, points, mapping, rng, kinds, record=True, m
                     try:
                         got, how = as_number(res)
                     except Symbolic as ex:
-                        out.append(("symbolic", {"kind": kind, "type": str(ex)}))
+                        if isinstance(res, Expr):
+                            out.append(("symbolic", {"kind": kind, "type": str(ex)}))
+                        else:
+                            # neither a number nor a UFL expression (e.g. a bound method): never a value
+                            out.append(("nonnumeric", {"kind": kind, "x": x, "xform": variant, "comp": comp, "index_values": dict(zip(fi_names, vals)),
+                                                       "got": repr(res)[:120], "expected": None, "err": float("nan"), "type": str(ex), "point": pi}))
                         continue
                     if J.state != "ok":
                         out.append((J.state, {"kind": kind}))
@@ -356,7 +370,7 @@ def localise(ctx, recipe, pool, bad, mapping, rng):
             continue
         kinds = ["whole"] if whole else ([bad["kind"]] if not sub.fi else ["evaluate"])
         res, _ = observe(ctx, sub, e, pool, point, mapping, rng, kinds, record=False)
-        wrong = [r for r in res if r[0] in ("disagree", "whole-disagree")]
+        wrong = [r for r in res if r[0] in ("disagree", "whole-disagree", "nonnumeric")]
         if wrong:
             return sub, e, wrong[0][1]
     return None, None, None
@@ -435,6 +449,7 @@ def case(ctx, i, rng):
     for _ in range(2):
         points.append((tuple(rng.choice(COORDS) for _ in range(d)), rng.choice(["tuple", "tuple", "list", "float"])))
     mapping = pool.mapping(no_derivatives=not has_deriv)
+    used_styles = set(pool.used_styles)
     kinds = ["call", "evaluate", "direct", "whole"]
     res, expanded = observe(ctx, recipe, expr, pool, points, mapping, rng, kinds)
     tally = {}
@@ -452,7 +467,7 @@ def case(ctx, i, rng):
             ctx.covered("symbolic_results", info["type"])
         if v.startswith("whole-"):
             ctx.covered("whole_value_outcomes", v + ":" + type(expr).__name__)
-    bad = [info for v, info in res if v in ("disagree", "whole-disagree")]
+    bad = [info for v, info in res if v in ("disagree", "whole-disagree")] or [info for v, info in res if v == "nonnumeric"]
     if bad:
         ctx.count("violated")
         b = bad[0]
@@ -467,14 +482,16 @@ def case(ctx, i, rng):
             pm = pool.mapping(no_derivatives=False, python_only=True)
             kind = b["kind"] if not whole else "whole"
             r2, _ = observe(ctx, sub, sube, pool, [(b["x"], b.get("xform", "tuple"))], pm, rng, [kind if not sub.fi else "evaluate"], record=False)
-            if r2 and not any(v in ("disagree", "whole-disagree") for v, _ in r2):
+            if r2 and not any(v in ("disagree", "whole-disagree", "nonnumeric") for v, _ in r2):
                 suffix = "/numpy-typed-mapping-value"
         if reuses_bound_index(sub):
             suffix += "/index-also-bound-inside-operand"
-        key = f"C24/{'whole-value' if whole else 'wrong-value'}/{cls}{suffix}"
+        nonnum = winfo.get("expected") is None
+        key = f"C24/{'non-numeric-result' if nonnum else ('whole-value' if whole else 'wrong-value')}/{cls}{suffix}"
         ctx.violation(
             key,
-            f"{b['kind']} event: {cls} evaluates to {winfo['got']!r}, mathematical value {complex(winfo['expected'])!r} (|diff| {winfo['err']:.3g}) at x={b['x']}",
+            (f"{b['kind']} event: {cls} evaluates to the non-numeric object {winfo['got']} at x={b['x']}" if nonnum else
+             f"{b['kind']} event: {cls} evaluates to {winfo['got']!r}, mathematical value {complex(winfo['expected'])!r} (|diff| {winfo['err']:.3g}) at x={b['x']}"),
             {"culprit_recipe": D.show(sub, 600), "culprit_expr": str(sube)[:600], "whole_recipe": D.show(recipe, 900), "expr": str(expr)[:900], "component": repr(winfo.get("comp")),
              "index_values": repr(winfo.get("index_values")), "mapping_styles": {nm: pool.style[nm] for nm in sorted(pool.style)}, "note": b.get("note", ""), "returned": b.get("returned", "")},
         )
@@ -495,7 +512,7 @@ def case(ctx, i, rng):
             ctx.covered("ops_held", o)
         for c in classes_of(expanded):
             ctx.covered("evaluated_classes_held", c)
-        for st in set(pool.style.values()):
+        for st in used_styles:
             ctx.covered("mapping_styles_held", st)
         ctx.add_distinct((mode, d, cplx, skeleton(recipe, 3), tuple(recipe.shape)))
         if i % 7 == 0:
